@@ -32,6 +32,15 @@ func main() {
 			o.Seed, _ = strconv.Atoi(s)
 		}
 		os.Exit(govc.RunCheck(o))
+	case "names":
+		fs := flag.NewFlagSet("names", flag.ExitOnError)
+		repo := fs.String("repo", "/repo", "repository")
+		verif := fs.String("verif", "/verif", "verif dir")
+		fs.Parse(os.Args[2:])
+		if err := govc.WriteNames(*repo, *verif); err != nil {
+			fmt.Println("govc names:", err)
+			os.Exit(2)
+		}
 	case "dump":
 		govc.Dump(os.Args[2], os.Args[3:])
 	}
